@@ -164,6 +164,69 @@ def json_pass(v):
     return v
 
 
+def _sorted_keys(v):
+    """json.dumps(..., sort_keys=True): every object of the text lists its members in key order, and so does the parsed document."""
+    if isinstance(v, dict):
+        return {k: _sorted_keys(v[k]) for k in sorted(v, key=str)}
+    if isinstance(v, list):
+        return [_sorted_keys(x) for x in v]
+    return v
+
+
+class JsonText(Stub):
+    """The text json.dumps produced, kept as the document a parser reads back from it."""
+
+    def __init__(self, doc):
+        self.doc = doc
+
+
+class JsonNS(Stub):
+    """The json module as far as the model writers / readers use it."""
+
+    @staticmethod
+    def dumps(obj, *a, **k):
+        extra = set(k) - {"sort_keys", "indent", "separators", "ensure_ascii", "allow_nan"}
+        if a or extra:
+            raise Unsupported(f"json.dumps with {sorted(extra) or 'positional options'}")
+        doc = json_pass(_dump(obj))
+        sk = k.get("sort_keys", False)
+        if not isinstance(sk, bool):
+            raise Unsupported("json.dumps(sort_keys=<not a constant>)")
+        return JsonText(_sorted_keys(doc) if sk else doc)
+
+    @staticmethod
+    def loads(text, *a, **k):
+        if a or k or not isinstance(text, JsonText):
+            raise Unsupported("json.loads of something json.dumps did not produce, or with options")
+        return text.doc
+
+
+def through_text(chk, td, doc):
+    """The document as the reader's from_dict receives it when the model goes through to_json() / from_json(): both wrappers are interpreted
+    (json stand-in above; `self.to_dict()` hands back `doc`, `cls.from_dict(d)` captures d).  Without such wrappers: the JSON data model only."""
+    cls = td.cls
+    tj = chk.res.find_method(cls, "to_json") if cls is not None else None
+    fj = chk.res.find_method(cls, "from_json") if cls is not None else None
+    if tj is None or fj is None:
+        return json_pass(doc)
+    it = Interp(step_limit=20_000)
+    me = AbsObj({cls.name}, to_dict=StubCall(lambda *a, **k: doc))
+    text = Function(tj.node, ModuleEnv(chk.repo, tj.module, it, {"json": JsonNS()}), it)(me)
+    if not isinstance(text, JsonText):
+        raise Unsupported("to_json does not return the text json.dumps produced")
+    got = {}
+
+    def from_dict(d, *a, **k):
+        got["doc"] = d
+        return "<model>"
+    klass = AbsObj({cls.name}, from_dict=StubCall(from_dict))
+    it2 = Interp(step_limit=20_000)
+    r = Function(fj.node, ModuleEnv(chk.repo, fj.module, it2, {"json": JsonNS()}), it2)(klass, text)
+    if "doc" not in got or r != "<model>":
+        raise Unsupported("from_json does not return cls.from_dict(<parsed document>)")
+    return got["doc"]
+
+
 def _lower(v):
     return v.lower().strip() if isinstance(v, str) else v
 
@@ -307,6 +370,15 @@ def _val_key(v) -> str:
     return repr(v)
 
 
+def _val_key_u(v) -> str:
+    """_val_key with the members of every mapping in key order (two dicts are equal whatever their order)."""
+    if isinstance(v, dict):
+        return "{" + ", ".join(f"{k!r}: {_val_key_u(x)}" for k, x in sorted(v.items(), key=lambda kv: repr(kv[0]))) + "}"
+    if isinstance(v, (list, tuple)):
+        return "[" + ", ".join(_val_key_u(x) for x in v) + "]"
+    return _val_key(v)
+
+
 def _get_path(o, path: str):
     for part in path.split("."):
         if isinstance(o, AbsObj) and part not in o.__dict__:
@@ -347,7 +419,10 @@ def round_trip(chk, td, fd, scaling: str, ts_features: List[str], train_features
     if not isinstance(doc, dict):
         return {"raises": "to_dict does not return a dict"}
     if through_json:
-        doc = json_pass(doc)
+        try:
+            doc = through_text(chk, td, doc)
+        except InterpRaised as e:
+            return {"raises": f"to_json / from_json raises {e.exc_name}"}
 
     def make_model(*a, **kw):
         if a or set(kw) != {"settings"}:
@@ -373,7 +448,7 @@ def round_trip(chk, td, fd, scaling: str, ts_features: List[str], train_features
     if _val_key(doc_in) != _val_key(doc):
         ch = [k_ for k_ in sorted(set(doc) | set(doc_in), key=str) if _val_key(doc.get(k_)) != _val_key(doc_in.get(k_))]
         diffs["<document>"] = (f"as written ({ch})", "modified by from_dict: loading the same parsed document twice gives different models")
-    if _val_key(_dump(doc.get("settings"))) != _val_key(json_pass(_dump(settings)) if through_json else _dump(settings)):
+    if _val_key_u(_dump(doc.get("settings"))) != _val_key_u(json_pass(_dump(settings)) if through_json else _dump(settings)):
         diffs["settings"] = (_val_key(_dump(settings)), _val_key(doc.get("settings")))
     bs = back.__dict__.get("settings")
     if not isinstance(bs, RecObj) or _val_key(bs._fields().get("train_features")) != _val_key(list(train_features)) or bs._fields().get("scaling_method") != tok:
